@@ -14,12 +14,13 @@ from ..oracles import ALIASES, CONFIGS, METRICS, rate, ref_cm
 
 STR_NAMES = ["a", "b", "c_d", "_", "é", "group 1", "x_y_z", "B"]
 INT_NAMES = [0, 1, 2, 5, -3]
+BIG_NAMES = [2**53 + 1, 2**53 + 2, 2**53 + 3, 2**53 + 5, 2**60, -(2**53) - 1]  # 64-bit ids
 
 
 @st.composite
 def _group_sets(draw, distinct=None, max_size=10, min_each=0):
-    kind = draw(st.sampled_from(["str", "str", "int"]))
-    pool = STR_NAMES if kind == "str" else INT_NAMES
+    kind = draw(st.sampled_from(["str", "str", "int", "bigint"]))
+    pool = STR_NAMES if kind == "str" else INT_NAMES if kind == "int" else BIG_NAMES
     G = draw(st.integers(1, 5))
     names = draw(st.lists(st.sampled_from(pool), min_size=G, max_size=G, unique=True))
     if distinct is None:
@@ -39,7 +40,11 @@ def _group_sets(draw, distinct=None, max_size=10, min_each=0):
         extra = [i for i in range(G) if i not in used][:1] if draw(st.booleans()) else []
         given = list(draw(st.permutations(used + extra)))
     return dict(kind=kind, names=names, pos=s["pos"], neg=s["neg"], pg=pg, ng=ng, sc=sc, ec=ec,
-                mode=s["mode"], distinct=distinct, given_names=given)
+                mode=s["mode"], distinct=distinct, given_names=given,
+                # how the caller holds the labels, whether an absent class is passed as [] and
+                # whether the caller sorts the scores itself (is_sorted=True)
+                labels_as=draw(st.sampled_from(["array", "array", "list", "series"])),
+                empty_as_list=draw(st.booleans()), sorted_input=draw(st.sampled_from([False, False, True])))
 
 
 def _labels(d, which):
@@ -64,9 +69,23 @@ def _make(d, via="ctor", is_sorted=False):
         perm = np.argsort(np.cos(np.arange(len(scores)) * 7.77), kind="stable")
         return GroupScores.from_labels(labels[perm], scores[perm], groups[perm], pos_label=1,
                                        score_class=d["sc"], equal_class=d["ec"])
+    is_sorted = bool(is_sorted or d.get("sorted_input"))
     if is_sorted:
         ip, ineg = np.argsort(pos, kind="stable"), np.argsort(neg, kind="stable")
         pos, neg, pg, ng = pos[ip], neg[ineg], pg[ip], ng[ineg]
+    held = d.get("labels_as", "array")
+    if held == "list":
+        pg, ng = pg.tolist(), ng.tolist()
+    elif held == "series":  # a column of a frame whose index labels are not the positions
+        import pandas as pd
+
+        pg = pd.Series(pg, index=list(range(len(pg)))[::-1])
+        ng = pd.Series(ng, index=list(range(len(ng)))[::-1])
+    if d.get("empty_as_list"):
+        if len(pos) == 0:
+            pos, pg = [], []
+        if len(neg) == 0:
+            neg, ng = [], []
     return GroupScores(pos, neg, pos_groups=pg, neg_groups=ng, score_class=d["sc"],
                        equal_class=d["ec"], is_sorted=is_sorted, **kw)
 
@@ -77,17 +96,22 @@ def _py(x):
 
 def triples(g):
     t = Counter()
-    for s, lab in zip(g.pos.tolist(), g.pos_groups.tolist()):
+    # (whatever container the object keeps its labels in)
+    for s, lab in zip(np.asarray(g.pos).tolist(), np.asarray(g.pos_groups).tolist()):
         t[(float(s), _norm(lab), "pos")] += 1
-    for s, lab in zip(g.neg.tolist(), g.neg_groups.tolist()):
+    for s, lab in zip(np.asarray(g.neg).tolist(), np.asarray(g.neg_groups).tolist()):
         t[(float(s), _norm(lab), "neg")] += 1
     return t
 
 
 def _norm(lab):
     """Labels are compared by value: 0 == 0.0, 'a' == np.str_('a')."""
-    if isinstance(lab, (int, float)) and not isinstance(lab, bool):
-        return float(lab)
+    if isinstance(lab, bool):
+        return str(lab)
+    if isinstance(lab, int):
+        return lab  # exact, also beyond 2^53
+    if isinstance(lab, float):
+        return int(lab) if lab.is_integer() else lab
     return str(lab)
 
 
